@@ -144,8 +144,12 @@ func c15Child(args []string) int {
 			}
 		}
 	})
-	if appendDuring > 0 {
+	appenderDone := make(chan struct{})
+	if appendDuring == 0 {
+		close(appenderDone)
+	} else {
 		go func() {
+			defer close(appenderDone)
 			for i := 0; i < appendDuring; i++ {
 				seq := end + uint64(appendBefore) + uint64(i)
 				if err := log.Append(&packet.Publish{Header: &packet.Header{}, Topic: []byte("c15/t"), Payload: []byte(fmt.Sprintf("m%d", seq))}); err != nil {
@@ -179,6 +183,11 @@ func c15Child(args []string) int {
 	case <-time.After(120 * time.Second):
 		c15Logf(out, "X timeout")
 		return 4
+	}
+	// the concurrent appender finishes its (bounded) work before the log is closed
+	select {
+	case <-appenderDone:
+	case <-time.After(60 * time.Second):
 	}
 	log.Close()
 	c15Logf(out, "Z clean-exit")
